@@ -123,6 +123,61 @@ def file_task(task):
     return n, out, per_kind, base_text
 
 
+def sample_sites(fname, text):
+    """Opaque-text sites of a raw text, from the token spans: (start, end, kind, prefix, inner, suffix, forbidden)."""
+    from .. import impl
+    from ..model import lexref
+    t, errs, exc = impl.lex(text, fname)
+    if t is None:
+        return []
+    al = lexref.align(text, t, set())
+    if not al["ok"]:
+        return []
+    out = []
+    has_header = text.startswith("/* ****")
+    for x, (a, b) in zip(t, al["spans"]):
+        raw = text[a:b]
+        if has_header and x.pos[0] <= 11:
+            continue                    # the 42 header is outside the property
+        if "\n" in raw or "\\" in raw or "\t" in raw or "??" in raw:
+            continue
+        ls = text.rfind("\n", 0, a) + 1
+        head = text[ls:a].replace(" ", "").replace("\t", "")
+        if head.startswith("#include") or head.startswith("#import"):
+            continue
+        if x.type == "COMMENT" and raw.startswith("//"):
+            out.append((a, b, "linecomment", "//", raw[2:], "", ("\\", "\n")))
+        elif x.type == "MULT_COMMENT" and raw.startswith("/*") and raw.endswith("*/") and len(raw) >= 4:
+            out.append((a, b, "blockcomment", "/*", raw[2:-2], "*/", ("*/", "\\", "\n")))
+        elif x.type == "STRING" and raw.startswith('"') and raw.endswith('"') and len(raw) >= 2:
+            out.append((a, b, "string", '"', raw[1:-1], '"', ('"', "\\", "\n")))
+        elif x.type == "CHAR_CONST" and raw.startswith("'") and len(raw) == 3:
+            out.append((a, b, "char", "'", raw[1:-1], "'", ("'", "\\", "\n")))
+    return out
+
+
+def sample_task(task):
+    """Worker: one sample input of norminette's own tests, at text level (comments and literals found by the lexer)."""
+    fname, text, cap = task
+    base = diffcommon.diag4(fname, text)
+    out = []
+    n = 0
+    per_kind = {}
+    for (a, b, kind, pfx, inner, sfx, forb) in sample_sites(fname, text):
+        per_kind[kind] = per_kind.get(kind, 0) + 1
+        for rep in pool(len(inner), forb, cap):
+            if rep == inner or (kind == "blockcomment" and rep.endswith("*")) or (kind == "blockcomment" and rep.startswith("/") and False):
+                continue
+            v = text[:a] + pfx + rep + sfx + text[b:]
+            n += 1
+            got = diffcommon.diag4(fname, v)
+            if got != base:
+                x, y = set(got[0]), set(base[0])
+                out.append((kind, _cls(rep), f"replacing {inner!r} by {rep!r}: only after {sorted(x - y)[:3]}, only before "
+                                             f"{sorted(y - x)[:3]}, exc {got[1]} vs {base[1]}", v))
+    return n, out, per_kind, text
+
+
 def _cls(rep):
     for lx in sorted(LEXEMES, key=len, reverse=True):
         if lx in rep and lx not in ("a", "0"):
@@ -151,6 +206,16 @@ def run(tier, seed):
         for kind, cls, detail, text in out:
             failures.append(Failure("C17", f"{kind}:replacement-contains:{cls}", f"{t[0]}: {detail[:300]}",
                                     {"fname": t[0], "text": text, "base": base_text}))
+    from .. import corpus
+    smp = [(fn, tx, 10 if tier == "quick" else 80) for fn, tx in corpus.samples()]
+    sres = explore.pmap(sample_task, smp, chunksize=1)
+    for (fn, tx, _), (n, out, pk, _b) in zip(smp, sres):
+        st.runs += n
+        for k, v in pk.items():
+            kinds["sample-" + k] = kinds.get("sample-" + k, 0) + v
+        for kind, cls, detail, text in out:
+            failures.append(Failure("C17", f"sample:{kind}:replacement-contains:{cls}", f"{fn}: {detail[:300]}",
+                                    {"fname": fn, "text": text, "base": tx}))
     for k, v in kinds.items():
         st.bump("sites:" + k, v)
     for k in ("linecomment", "blockcomment", "string", "char"):
